@@ -1,4 +1,4 @@
-\* the code as it is: unbuffered Stats reply; NoStall must be violated
+\* the code before 495e0f0: unbuffered Stats reply; NoStall must be violated
 SPECIFICATION Spec
 CONSTANTS
   Pubs = {"p1"}
@@ -17,9 +17,11 @@ CONSTANTS
   AllowUnsub = FALSE
   AllowParentCancel = FALSE
   CtxCancels = 1
+  Redundant = 0
   WaitLocksMu = FALSE
   StatsBuffered = FALSE
   RecvWaitsFirst = FALSE
   KF_UnsubWindow = TRUE
+  CtlBuf = 0
 INVARIANTS TypeOK NoStall
 CHECK_DEADLOCK FALSE
